@@ -43,6 +43,19 @@ def check(tier, seed, t0):
     if not r.ok:
         raise vlib.ToolError("MC_C18: an invariant of the CallDepth machine fails:\n" + r.violation)
     ends = {c["shape"]: c for c in r.lines.get("CASE", [])}
+    # 1b. unbounded argument with Apalache: the inductive invariant of the typed single-shape machine (spec/CallDepthInd.tla)
+    apalache = []
+    adir = os.path.join(vlib.BUILD, "apalache_c18")
+    os.makedirs(adir, exist_ok=True)
+    for label, args in (("Init => IndInv", ["--init=Init", "--inv=IndInv", "--length=0"]),
+                        ("IndInv /\\ Next => IndInv'", ["--init=IndInit", "--inv=IndInv", "--length=1"]),
+                        ("IndInv => GuardBeforeOverflow", ["--init=IndInit", "--inv=Safe", "--length=0"])):
+        p = vlib.run(["timeout", "300", "apalache-mc", "check", "--cinit=ConstInit", "--out-dir=" + adir] + args + [os.path.join(vlib.SPEC, "CallDepthInd.tla")],
+                     cwd=adir, timeout=400)
+        ok = b"EXITCODE: OK" in p.stdout
+        apalache.append({"obligation": label, "discharged": ok})
+        if not ok:
+            raise vlib.ToolError("Apalache could not discharge '%s' of CallDepthInd:\n%s" % (label, p.stdout.decode(errors="replace")[-1500:]))
     # 2. the recorded runs against the machine
     bad, tr = vlib.validate_trace("c18_trace", "Trace_C18", tpath, len(events), timeout=600)
     for i in bad:
@@ -70,6 +83,7 @@ def check(tier, seed, t0):
             "evaluator_stack_KiB": stack,
             "measured_KiB_per_level": {e["shape"]: (e["measure"]["bytes_per_level"] + 1023) // 1024 for e in events},
             "model_end_states": {s: ends[s]["status"] for s in ends},
+            "apalache_inductive_obligations": apalache,
             "model_predicts_overflow_but_cli_survives": [s for s in predicted_overflow if next(x for x in events if x["shape"] == s)["runaway"]["exit"] == 1],
             "action_counts": r.coverage,
             "rule": "one recursion shape per event: self, mutual, conditional+operator, do-block, via / where / into callbacks, map / filter / "
